@@ -39,6 +39,10 @@ pub enum Shape {
     Twice,
     /// the wanted singletons are listed before the requirement that reveals the package
     WantFirst,
+    /// the second wanted candidate is never pinned by a singleton: requirements {i}, {i, j} (met by i
+    /// already; j is revealed next to a known candidate) and {j, j'} (forces j or its neighbour j');
+    /// the flag swaps the roles of the two wanted candidates
+    ForcedThroughRange(bool),
 }
 
 #[derive(Clone, Debug, serde::Serialize, serde::Deserialize)]
@@ -115,6 +119,41 @@ pub fn build(spec: &Spec) -> Case {
             prob.reqs.extend(want_reqs);
             let r = reveal(&mut u, &all);
             prob.reqs.push(r);
+        }
+        Shape::ForcedThroughRange(flip) => {
+            let n = spec.n;
+            let mut plain = |u: &mut Universe, idxs: &[usize]| -> Req {
+                let members: Vec<Id> = idxs.iter().map(|&i| cands[i]).collect();
+                Req::Single(u.add_vset(p, &members))
+            };
+            match spec.want.len() {
+                0 => {
+                    let r = reveal(&mut u, &all);
+                    prob.reqs.push(r);
+                }
+                1 => {
+                    let i = spec.want[0];
+                    let r = plain(&mut u, &[i]);
+                    prob.reqs.push(r);
+                    if n > 1 {
+                        let r = plain(&mut u, &[i, (i + 1) % n]);
+                        prob.reqs.push(r);
+                    }
+                }
+                _ => {
+                    let (i, j) = if *flip { (spec.want[1], spec.want[0]) } else { (spec.want[0], spec.want[1]) };
+                    let r = plain(&mut u, &[i]);
+                    prob.reqs.push(r);
+                    let r = plain(&mut u, &[i, j]);
+                    prob.reqs.push(r);
+                    let mut forced = vec![j];
+                    if let Some(j2) = (1..n).map(|d| (j + d) % n).find(|&c| c != i && c != j) {
+                        forced.push(j2);
+                    }
+                    let r = plain(&mut u, &forced);
+                    prob.reqs.push(r);
+                }
+            }
         }
         Shape::Blocks(sz) => {
             for b in all.chunks(*sz) {
@@ -236,6 +275,8 @@ fn shapes_for(n: usize, quick: bool) -> Vec<Shape> {
     v.push(Shape::FalseWhenRevealed);
     v.push(Shape::Twice);
     v.push(Shape::WantFirst);
+    v.push(Shape::ForcedThroughRange(false));
+    v.push(Shape::ForcedThroughRange(true));
     v.push(Shape::Growing(true));
     if n <= 9 || !quick {
         v.push(Shape::Growing(false));
